@@ -125,11 +125,13 @@ func c10CheckStream(x *c10Exec, solo *c10SoloCache, expr string, files []c10File
 	// comb.Stdout != expected here, so a model that reproduces it differs from the expectation: the
 	// structural feature of the finding (a later-file document with >= 2 results / a result without
 	// provenance) is necessarily present and decisive.
+	// B first: in a later file a result without provenance makes both models print the same text, and
+	// A is repaired in this tree (a listed `fixed:` entry suppresses nothing)
 	switch comb.Stdout {
-	case mA:
-		v.Verdict, v.Finding = mon.Finding, c10FindingA
 	case mB:
 		v.Verdict, v.Finding = mon.Finding, c10FindingB
+	case mA:
+		v.Verdict, v.Finding = mon.Finding, c10FindingA
 	case mAB:
 		// both recorded defects at once; reported under B, the tag says so
 		v.Verdict, v.Finding = mon.Finding, c10FindingB
